@@ -205,6 +205,7 @@ func init() {
 				ety := sh.Type().ElementType()
 				for _, route := range []string{"ValueSet.Add", "AsValueSet", "Union"} {
 					var set cty.Value
+					var extra []cty.Value
 					refused := false
 					func() {
 						defer func() {
@@ -219,6 +220,19 @@ func init() {
 								vs.Add(m)
 							}
 							set = cty.SetValFromValueSet(vs)
+							// the builder goes on being used: members are taken out
+							// of it and of a copy of it, in the middle of buckets too;
+							// the set values made from it on the way are checked below
+							cp := vs.Copy()
+							early := []cty.Value{cty.SetValFromValueSet(cp)}
+							for i, m := range sh.AsValueSlice() {
+								if i%2 == 0 {
+									vs.Remove(m)
+									early = append(early, cty.SetValFromValueSet(vs.Copy()))
+								}
+							}
+							extra = append(extra, early...)
+							extra = append(extra, cty.SetValFromValueSet(cp), cty.SetValFromValueSet(vs))
 						case "AsValueSet":
 							set = cty.SetValFromValueSet(sh.AsValueSet())
 						default:
@@ -241,6 +255,9 @@ func init() {
 						c.Label("valueset-route-with-nested-marks")
 					}
 					if err := wfAll(c, "SetValFromValueSet via "+route+" over the members of "+fmt.Sprintf("%#v", sh), set); err != nil {
+						return err
+					}
+					if err := wfAll(c, "SetValFromValueSet of a ValueSet (or a copy of it) that members were removed from, over the members of "+fmt.Sprintf("%#v", sh), extra...); err != nil {
 						return err
 					}
 				}
